@@ -950,6 +950,9 @@ func (x *Exec) runLoop(st *State, ls *loopSpec, k cont) {
 	// (1) invariants hold on entry
 	if lc != nil {
 		for i, inv := range lc.Invariants {
+			if !x.eng.tagActive(inv.Tag) {
+				continue
+			}
 			env := x.specEnvAt(st, ls.bodyPos, ls.ord)
 			g := asTerm(x.evalSpec(env, inv.E))
 			for j, cj := range splitConj(g) {
@@ -972,6 +975,9 @@ func (x *Exec) runLoop(st *State, ls *loopSpec, k cont) {
 	}
 	if lc != nil {
 		for _, inv := range lc.Invariants {
+			if !x.eng.tagActive(inv.Tag) {
+				continue
+			}
 			env := x.specEnvAt(h, ls.bodyPos, ls.ord)
 			h.assume(asTerm(x.evalSpec(env, inv.E)), fmt.Sprintf("inv/%d", ls.ord))
 		}
@@ -1025,6 +1031,9 @@ func (x *Exec) runLoop(st *State, ls *loopSpec, k cont) {
 		}
 		if lc != nil {
 			for i, inv := range lc.Invariants {
+				if !x.eng.tagActive(inv.Tag) {
+					continue
+				}
 				env := x.specEnvAt(s, ls.bodyPos, ls.ord)
 				g := asTerm(x.evalSpec(env, inv.E))
 				for j, cj := range splitConj(g) {
